@@ -17,6 +17,10 @@ def aset {α : Type} (a : Int → α) (i : Int) (x : α) : Int → α := fun j =
 def aset2 {α : Type} (a : Int → Int → α) (i j : Int) (x : α) : Int → Int → α :=
   fun p q => if p = i ∧ q = j then x else a p q
 
+/-- `a[i] = row` for a 2-d array: the row is copied element by element -/
+def asetRow {α : Type} (a : Int → Int → α) (i : Int) (row : Int → α) : Int → Int → α :=
+  fun p q => if p = i then row q else a p q
+
 /-- `range(n)` -/
 def rangeI (n : Int) : List Int := (List.range n.toNat).map Int.ofNat
 
